@@ -24,6 +24,11 @@ def isDocStart : Raw → Bool
   | .docStart _ => true
   | _ => false
 
+/-- stream framing: not counted at all under the per-document policy -/
+def isStreamFrame : Raw → Bool
+  | .streamStart | .streamEnd => true
+  | _ => false
+
 def b2n (b : Bool) : Nat := if b then 1 else 0
 
 /-- insertion into the duplicate-free anchor set -/
@@ -80,10 +85,20 @@ def wfAll (pd : Bool) : List CState → List Raw → Bool
   | _, [] => true
   | cs, ev :: evs => wf cs ev && wfAll pd (cstep pd cs ev) evs
 
-/-- check-free successor state -/
-def next (e : Enf) (ev : Raw) : Enf :=
+/-- the state the per-document prologue of `observe` hands to the counting part: under the per-document
+policy a `DocumentStart` forgets the previous document first; every other event (and the whole-input
+policy) leaves the state alone -/
+def pro (e : Enf) (ev : Raw) : Enf :=
   if e.perDocument && isDocStart ev then
     { e with report := { documents := e.report.documents }, defined := [], depth := 0, containers := [] }
+  else e
+
+/-- check-free successor state.  Per-document policy: a `DocumentStart` is the FIRST event charged to the
+new document (reset, then `events = 1`); `StreamStart` / `StreamEnd` are not counted. -/
+def next (e : Enf) (ev : Raw) : Enf :=
+  if e.perDocument && isDocStart ev then
+    { e with report := { events := 1, documents := e.report.documents }, defined := [], depth := 0, containers := [] }
+  else if e.perDocument && isStreamFrame ev then e
   else
     { e with
       report :=
@@ -177,7 +192,7 @@ theorem recordAnchor_err {e : Enf} {a : Nat} {b : Breach} (h : e.recordAnchor a 
     · cases h
   · cases h
 
-/-- what a breach raised by `observe` says -/
+/-- what a breach raised by `observe` says; `e` is the state after the per-document prologue (`pro`) -/
 def BreachSpec (e : Enf) (ev : Raw) : Breach → Prop
   | .events n => n = e.report.events + 1 ∧ n > e.lim.maxEvents
   | .nodes n => isNodeEv ev = true ∧ n = e.report.nodes + 1 ∧ n > e.lim.maxNodes
@@ -199,17 +214,44 @@ def Within (e : Enf) : Prop :=
 /-- outcome of `observe`, uniformly -/
 def Outcome (e : Enf) (ev : Raw) : Except Breach Enf → Prop
   | .ok e' => e' = next e ev ∧ (Within e → Within e')
-  | .error b => BreachSpec e ev b
+  | .error b => BreachSpec (pro e ev) ev b
 
 @[simp] theorem defIns_zero (bs : List Nat) : defIns bs 0 = bs := by simp [defIns]
 
+theorem perDocPrologue_eq (e : Enf) (ev : Raw) :
+    e.perDocPrologue ev = if e.perDocument && isStreamFrame ev then none else some (pro e ev) := by
+  cases hpd : e.perDocument <;> cases ev <;> simp [Enf.perDocPrologue, pro, hpd, isStreamFrame, isDocStart, Enf.beginDocument, Report.reset]
+
+/-- `observe` = per-document prologue, then the counting part -/
+theorem observe_eq (e : Enf) (ev : Raw) :
+    e.observe ev = if e.perDocument && isStreamFrame ev then .ok e else (pro e ev).observeCounted ev := by
+  unfold Enf.observe
+  rw [perDocPrologue_eq]
+  by_cases h : (e.perDocument && isStreamFrame ev) = true <;> simp [h]
+
+theorem pro_of_not_docStart {e : Enf} {ev : Raw} (h : isDocStart ev = false) : pro e ev = e := by
+  simp [pro, h]
+
+@[simp] theorem pro_of_not_pd {e : Enf} (ev : Raw) (h : e.perDocument = false) : pro e ev = e := by
+  simp [pro, h]
+
+/-- the whole-input policy has no prologue -/
+theorem observe_of_not_pd (e : Enf) (ev : Raw) (h : e.perDocument = false) : e.observe ev = e.observeCounted ev := by
+  rw [observe_eq, pro_of_not_pd ev h, h]; simp
+
+/-- events that are neither `DocumentStart` nor stream framing go straight to the counting part -/
+theorem observe_plain (e : Enf) {ev : Raw} (h1 : isDocStart ev = false) (h2 : isStreamFrame ev = false) :
+    e.observe ev = e.observeCounted ev := by
+  rw [observe_eq, pro_of_not_docStart h1, h2]; simp
+
 macro "fin" : tactic =>
-  `(tactic| (simp_all [next, isDocStart, isAliasEv, isNodeEv, isStart, isEnd, anchorOf, scalarBytesOf, mkOf, cstep, wf, b2n,
+  `(tactic| (simp_all [next, pro, isStreamFrame, isDocStart, isAliasEv, isNodeEv, isStart, isEnd, anchorOf, scalarBytesOf, mkOf, cstep, wf, b2n,
       BreachSpec, Within, Outcome, popC, Enf.beginDocument, Report.reset] <;> try (intros; omega)))
 
 theorem observe_outcome_scalar (e : Enf) v st a tag :
     Outcome e (.scalar v st a tag) (e.observe (.scalar v st a tag)) := by
-  simp only [Enf.observe]
+  rw [observe_plain e rfl rfl]
+  simp only [Enf.observeCounted]
   split
   · fin
   · split
@@ -236,7 +278,8 @@ theorem observe_outcome_scalar (e : Enf) v st a tag :
           · fin
 
 theorem observe_outcome_mapStart (e : Enf) a tag : Outcome e (.mapStart a tag) (e.observe (.mapStart a tag)) := by
-  simp only [Enf.observe]
+  rw [observe_plain e rfl rfl]
+  simp only [Enf.observeCounted]
   split
   · fin
   · split
@@ -264,7 +307,8 @@ theorem observe_outcome_mapStart (e : Enf) a tag : Outcome e (.mapStart a tag) (
           fin
 
 theorem observe_outcome_seqStart (e : Enf) a tag : Outcome e (.seqStart a tag) (e.observe (.seqStart a tag)) := by
-  simp only [Enf.observe]
+  rw [observe_plain e rfl rfl]
+  simp only [Enf.observeCounted]
   split
   · fin
   · split
@@ -293,7 +337,8 @@ theorem observe_outcome_seqStart (e : Enf) a tag : Outcome e (.seqStart a tag) (
 
 
 theorem observe_outcome_mapEnd (e : Enf) : Outcome e .mapEnd (e.observe .mapEnd) := by
-  simp only [Enf.observe]
+  rw [observe_plain e rfl rfl]
+  simp only [Enf.observeCounted]
   split
   · fin
   · split
@@ -303,7 +348,8 @@ theorem observe_outcome_mapEnd (e : Enf) : Outcome e .mapEnd (e.observe .mapEnd)
       · fin
 
 theorem observe_outcome_seqEnd (e : Enf) : Outcome e .seqEnd (e.observe .seqEnd) := by
-  simp only [Enf.observe]
+  rw [observe_plain e rfl rfl]
+  simp only [Enf.observeCounted]
   split
   · fin
   · split
@@ -313,7 +359,8 @@ theorem observe_outcome_seqEnd (e : Enf) : Outcome e .seqEnd (e.observe .seqEnd)
       · fin
 
 theorem observe_outcome_alias (e : Enf) id : Outcome e (.alias id) (e.observe (.alias id)) := by
-  simp only [Enf.observe]
+  rw [observe_plain e rfl rfl]
+  simp only [Enf.observeCounted]
   split
   · fin
   · split
@@ -321,14 +368,30 @@ theorem observe_outcome_alias (e : Enf) id : Outcome e (.alias id) (e.observe (.
     · fin
 
 theorem observe_outcome_docStart (e : Enf) x : Outcome e (.docStart x) (e.observe (.docStart x)) := by
-  simp only [Enf.observe]
-  split
-  · fin
-  · split
+  rw [observe_eq]
+  cases hpd : e.perDocument
+  · simp only [pro, hpd, isStreamFrame, isDocStart, Bool.false_and, Bool.false_eq_true, if_false, Enf.observeCounted]
+    split
     · fin
     · split
+      · split
+        · fin
+        · fin
       · fin
-      · fin
+  · simp only [pro, hpd, isStreamFrame, isDocStart, Bool.and_false, Bool.and_true, Bool.false_eq_true, if_false, if_true,
+      Enf.observeCounted]
+    split
+    · fin
+    · fin
+
+theorem observe_outcome_frame (e : Enf) (ev : Raw) (hf : isStreamFrame ev = true) : Outcome e ev (e.observe ev) := by
+  have hd : isDocStart ev = false := by cases ev <;> simp_all [isStreamFrame, isDocStart]
+  rw [observe_eq, pro_of_not_docStart hd]
+  cases hpd : e.perDocument
+  · cases ev <;> simp only [isStreamFrame] at hf <;> try (cases hf)
+    all_goals (simp only [isStreamFrame, Bool.false_and, Bool.false_eq_true, if_false, Enf.observeCounted]; split <;> fin)
+  · simp only [hf, Bool.and_true, if_true, Outcome]
+    exact ⟨by simp [next, hpd, hd, hf], id⟩
 
 theorem observe_outcome (e : Enf) (ev : Raw) : Outcome e ev (e.observe ev) := by
   cases ev with
@@ -339,10 +402,10 @@ theorem observe_outcome (e : Enf) (ev : Raw) : Outcome e ev (e.observe ev) := by
   | seqEnd => exact observe_outcome_seqEnd e
   | alias id => exact observe_outcome_alias e id
   | docStart x => exact observe_outcome_docStart e x
-  | docEnd => simp only [Enf.observe]; split <;> fin
-  | nothing => simp only [Enf.observe]; split <;> fin
-  | streamStart => simp only [Enf.observe]; split <;> fin
-  | streamEnd => simp only [Enf.observe]; split <;> fin
+  | docEnd => rw [observe_plain e rfl rfl]; simp only [Enf.observeCounted]; split <;> fin
+  | nothing => rw [observe_plain e rfl rfl]; simp only [Enf.observeCounted]; split <;> fin
+  | streamStart => exact observe_outcome_frame e _ rfl
+  | streamEnd => exact observe_outcome_frame e _ rfl
 
 /-! ## `runFrom` -/
 
@@ -350,7 +413,7 @@ theorem observe_ok {e e' : Enf} {ev : Raw} (h : e.observe ev = .ok e') : e' = ne
   have := observe_outcome e ev
   rw [h] at this; exact this
 
-theorem observe_err {e : Enf} {ev : Raw} {b : Breach} (h : e.observe ev = .error b) : BreachSpec e ev b := by
+theorem observe_err {e : Enf} {ev : Raw} {b : Breach} (h : e.observe ev = .error b) : BreachSpec (pro e ev) ev b := by
   have := observe_outcome e ev
   rw [h] at this; exact this
 
@@ -424,10 +487,10 @@ theorem runFrom_index {e e' : Enf} {i : Nat} (j : Nat) {evs : List Raw} (h : run
 /-! ## fields of `nextAll` -/
 
 @[simp] theorem next_lim (e : Enf) (ev : Raw) : (next e ev).lim = e.lim := by
-  unfold next; split <;> rfl
+  unfold next; split <;> (try split) <;> rfl
 
 @[simp] theorem next_pd (e : Enf) (ev : Raw) : (next e ev).perDocument = e.perDocument := by
-  unfold next; split <;> rfl
+  unfold next; split <;> (try split) <;> rfl
 
 @[simp] theorem nextAll_lim (e : Enf) (evs : List Raw) : (nextAll e evs).lim = e.lim := by
   induction evs generalizing e with
@@ -568,7 +631,11 @@ theorem next_containers (e : Enf) (ev : Raw) :
   · rename_i h
     simp only [Bool.and_eq_true] at h
     cases ev <;> simp_all [isDocStart, cstep]
-  · rfl
+  · split
+    · rename_i h
+      simp only [Bool.and_eq_true] at h
+      cases ev <;> simp_all [isStreamFrame, cstep]
+    · rfl
 
 theorem nextAll_containers (e : Enf) (evs : List Raw) :
     (nextAll e evs).containers = cstepAll e.perDocument e.containers evs := by
@@ -633,7 +700,13 @@ theorem satAdd_one {d : Nat} (h : d + 1 < 2 ^ 64) : satAdd d 1 = d + 1 := by
 theorem next_depth (e : Enf) (ev : Raw) :
     (next e ev).depth =
       if e.perDocument && isDocStart ev then 0 else if isStart ev then satAdd e.depth 1 else if isEnd ev then e.depth - 1 else e.depth := by
-  unfold next; split <;> rfl
+  unfold next; split
+  · rfl
+  · split
+    · rename_i h
+      simp only [Bool.and_eq_true] at h
+      cases ev <;> simp_all [isStreamFrame, isStart, isEnd]
+    · rfl
 
 /-- depth = height of the container stack (both policies) -/
 theorem nextAll_depth_len {e : Enf} (evs : List Raw) (hd : e.depth = e.containers.length)
@@ -865,12 +938,16 @@ theorem gt_satMul {a : Nat} (m k : Nat) (ha : a ≤ USIZE_MAX) : a > satMul m k 
 theorem wf_nil_of_isEnd {ev : Raw} (h : isEnd ev = true) : wf [] ev = false := by
   cases ev <;> simp_all [isEnd, wf]
 
+theorem pro_of_isEnd {e : Enf} {ev : Raw} (h : isEnd ev = true) : pro e ev = e :=
+  pro_of_not_docStart (by cases ev <;> simp_all [isEnd, isDocStart])
+
 theorem unbalanced_wfAll_false {e : Enf} {i j : Nat} {evs : List Raw} (hd : e.depth = e.containers.length)
     (hlen : e.depth + evs.length < 2 ^ 64) (h : runFrom e i evs = .error (j, .unbalanced)) :
     wfAll e.perDocument e.containers evs = false := by
   obtain ⟨pre, ev, post, rfl, -, -, herr⟩ := runFrom_err h
   have hb := observe_err herr
   simp only [BreachSpec] at hb
+  rw [pro_of_isEnd hb.1] at hb
   have hlen' : e.depth + pre.length < 2 ^ 64 := by
     simp only [List.length_append, List.length_cons] at hlen; omega
   have hdl := nextAll_depth_len pre hd hlen'
@@ -909,41 +986,56 @@ def acc : Except (Nat × Breach) Enf → Bool
   | .ok _ => true
   | .error _ => false
 
-/-- one document is accepted on its own: its events from the reset state, and the event check that follows it -/
-def docOk (lim : Limits) (d : Node) : Bool :=
-  match runFrom (Enf.new lim true) 0 (flatten d ++ [.docEnd]) with
-  | .ok e1 => decide (e1.report.events + 1 ≤ lim.maxEvents)
-  | .error _ => false
+/-- move the reported index of a breach by `k` (the final state is untouched) -/
+def shiftErr (k : Nat) : Except (Nat × Breach) Enf → Except (Nat × Breach) Enf
+  | .ok e => .ok e
+  | .error (i, b) => .error (k + i, b)
 
-theorem observe_docStart_pd {e : Enf} (x : Bool) (hpd : e.perDocument = true) (hdoc : e.report.documents = 0) :
+theorem runFrom_shift (e : Enf) (k i : Nat) (evs : List Raw) :
+    runFrom e (k + i) evs = shiftErr k (runFrom e i evs) := by
+  induction evs generalizing e i with
+  | nil => rfl
+  | cons x xs ih =>
+    simp only [runFrom]
+    cases e.observe x with
+    | error b => rfl
+    | ok e1 => exact ih e1 (i + 1)
+
+@[simp] theorem acc_shiftErr (k : Nat) (r : Except (Nat × Breach) Enf) : acc (shiftErr k r) = acc r := by
+  cases r with
+  | ok e => rfl
+  | error p => rfl
+
+/-- the per-document state right after a `DocumentStart`: nothing but the limits, the (never changing)
+documents counter and the one counted event -/
+def docStartState (lim : Limits) (docs : Nat) : Enf :=
+  { lim, perDocument := true, report := { events := 1, documents := docs } }
+
+/-- per-document policy: what `observe` does on a `DocumentStart` depends on the limits and on the documents
+counter only — not on anything counted before -/
+theorem observe_docStart_pd {e : Enf} (x : Bool) (hpd : e.perDocument = true) :
     e.observe (.docStart x) =
-      if e.report.events + 1 > e.lim.maxEvents then .error (.events (e.report.events + 1))
-      else .ok (Enf.new e.lim true) := by
+      if 1 > e.lim.maxEvents then .error (.events 1) else .ok (docStartState e.lim e.report.documents) := by
   cases e with
   | mk lim pd report depth defined containers =>
-    simp only [] at hpd hdoc
+    simp only [] at hpd
     subst hpd
-    simp [Enf.observe, Enf.beginDocument, Report.reset, Enf.new, hdoc]
+    simp [observe_eq, pro, isStreamFrame, isDocStart, Enf.observeCounted, docStartState]
 
-theorem observe_streamEnd (e : Enf) :
-    e.observe .streamEnd =
-      if e.report.events + 1 > e.lim.maxEvents then .error (.events (e.report.events + 1))
-      else .ok { e with report := { e.report with events := e.report.events + 1 } } := by
-  simp [Enf.observe]
-
-theorem observe_streamStart (e : Enf) :
-    e.observe .streamStart =
-      if e.report.events + 1 > e.lim.maxEvents then .error (.events (e.report.events + 1))
-      else .ok { e with report := { e.report with events := e.report.events + 1 } } := by
-  simp [Enf.observe]
+/-- per-document policy: stream framing is not observed at all -/
+theorem observe_frame_pd {e : Enf} (hpd : e.perDocument = true) {ev : Raw} (hf : isStreamFrame ev = true) :
+    e.observe ev = .ok e := by
+  rw [observe_eq, hpd, hf]; rfl
 
 theorem next_documents_pd {e : Enf} (hpd : e.perDocument = true) (ev : Raw) :
     (next e ev).report.documents = e.report.documents := by
   unfold next; split
   · rfl
-  · rename_i h
-    simp only [hpd, Bool.true_and] at h
-    simp [h, b2n]
+  · split
+    · rfl
+    · rename_i h _
+      simp only [hpd, Bool.true_and] at h
+      simp [h, b2n]
 
 theorem nextAll_documents_pd {e : Enf} (hpd : e.perDocument = true) (evs : List Raw) :
     (nextAll e evs).report.documents = e.report.documents := by
@@ -951,65 +1043,143 @@ theorem nextAll_documents_pd {e : Enf} (hpd : e.perDocument = true) (evs : List 
   | nil => rfl
   | cons x xs ih => simp only [nextAll]; rw [ih (by simpa using hpd), next_documents_pd hpd]
 
-theorem docEnd_events (e : Enf) : (next e .docEnd).report.events = e.report.events + 1 := by
-  simp [next, isDocStart]
+/-- KEY LEMMA (per-document policy).  The run over an event list that begins with a `DocumentStart` is the same
+from any two states that agree on the limits and on the documents counter: counters, defined anchors, depth
+and container stack of whatever was observed before are irrelevant.  Arbitrary event lists (not only trees),
+arbitrary states (also the one left behind by an abandoned document). -/
+theorem runFrom_docStart_pd {e e' : Enf} (hpd : e.perDocument = true) (hpd' : e'.perDocument = true)
+    (hl : e.lim = e'.lim) (hdoc : e.report.documents = e'.report.documents) (x : Bool) (evs : List Raw) (i : Nat) :
+    runFrom e i (.docStart x :: evs) = runFrom e' i (.docStart x :: evs) := by
+  simp only [runFrom, observe_docStart_pd x hpd, observe_docStart_pd x hpd', hl, hdoc]
 
-theorem perdoc_docs (lim : Limits) (ds : List Node) (e : Enf) (i : Nat)
-    (hl : e.lim = lim) (hpd : e.perDocument = true) (hdoc : e.report.documents = 0) :
-    acc (runFrom e i (flattenDocs ds ++ [.streamEnd])) =
-      (decide (e.report.events + 1 ≤ lim.maxEvents) && ds.all (docOk lim)) := by
+/-- one document on its own: its events `DocumentStart … DocumentEnd` from the fresh per-document state -/
+def docRun (lim : Limits) (d : Node) : Except (Nat × Breach) Enf :=
+  runFrom (Enf.new lim true) 0 (flattenDoc d)
+
+/-- a state a per-document run can be in between two documents: right policy, right limits, documents
+counter still zero (everything else arbitrary) -/
+def PdState (lim : Limits) (e : Enf) : Prop :=
+  e.perDocument = true ∧ e.lim = lim ∧ e.report.documents = 0
+
+theorem pdState_new (lim : Limits) : PdState lim (Enf.new lim true) := ⟨rfl, rfl, rfl⟩
+
+theorem pdState_run {lim : Limits} {e e' : Enf} {i : Nat} {evs : List Raw} (hs : PdState lim e)
+    (h : runFrom e i evs = .ok e') : PdState lim e' := by
+  obtain ⟨rfl, -⟩ := runFrom_ok h
+  exact ⟨by rw [nextAll_pd]; exact hs.1, by rw [nextAll_lim]; exact hs.2.1,
+    by rw [nextAll_documents_pd hs.1]; exact hs.2.2⟩
+
+/-- the run over the events of one document from ANY between-documents state is the run of the document
+on its own (breach index moved to the position of the document) -/
+theorem runFrom_flattenDoc_pd {lim : Limits} {e : Enf} (hs : PdState lim e) (i : Nat) (d : Node) :
+    runFrom e i (flattenDoc d) = shiftErr i (docRun lim d) := by
+  unfold docRun flattenDoc
+  rw [← runFrom_shift, Nat.add_zero]
+  exact runFrom_docStart_pd hs.1 rfl hs.2.1 hs.2.2 _ _ _
+
+/-- what a per-document run of a stream must be: the documents one at a time, each from the fresh state;
+the first failing document decides, otherwise the state is the one the last document ended in -/
+def perDocSpec (lim : Limits) : Nat → Enf → List Node → Except (Nat × Breach) Enf
+  | _, last, [] => .ok last
+  | off, _, d :: ds =>
+    match docRun lim d with
+    | .error (i, b) => .error (off + i, b)
+    | .ok e => perDocSpec lim (off + (flattenDoc d).length) e ds
+
+/-- documents only (no `StreamEnd`): from any between-documents state -/
+theorem perdoc_docs0 (lim : Limits) (ds : List Node) (e : Enf) (i : Nat) (hs : PdState lim e) :
+    runFrom e i (flattenDocs ds) = perDocSpec lim i e ds := by
   induction ds generalizing e i with
-  | nil =>
-    simp only [flattenDocs, List.nil_append, runFrom, observe_streamEnd, hl, List.all_nil, Bool.and_true]
-    by_cases h : e.report.events + 1 > lim.maxEvents
-    · simp only [if_pos h, acc]; simp; omega
-    · simp only [if_neg h, acc]; simp; omega
+  | nil => rfl
   | cons d ds ih =>
-    have hsplit : flattenDocs (d :: ds) ++ [Raw.streamEnd] =
-        Raw.docStart false :: ((flatten d ++ [Raw.docEnd]) ++ (flattenDocs ds ++ [Raw.streamEnd])) := by
-      simp [flattenDocs, flattenDoc]
-    rw [hsplit]
-    simp only [runFrom, observe_docStart_pd false hpd hdoc, hl, List.all_cons]
-    by_cases h : e.report.events + 1 > lim.maxEvents
-    · simp only [if_pos h, acc]; simp; omega
-    · simp only [if_neg h]
-      have hle : decide (e.report.events + 1 ≤ lim.maxEvents) = true := by simp; omega
-      rw [hle, Bool.true_and, runFrom_append]
-      unfold docOk
-      cases h0 : runFrom (Enf.new lim true) 0 (flatten d ++ [Raw.docEnd]) with
-      | ok e1 =>
-        rw [runFrom_index (i + 1) h0]
-        simp only []
-        obtain ⟨rfl, -⟩ := runFrom_ok h0
-        exact ih _ _ (by simp [Enf.new]) (by simp [Enf.new]) (by rw [nextAll_documents_pd (by rfl)]; rfl)
-      | error p =>
-        cases h1 : runFrom (Enf.new lim true) (i + 1) (flatten d ++ [Raw.docEnd]) with
-        | ok e1 => rw [runFrom_index 0 h1] at h0; cases h0
-        | error q => simp [acc]
+    simp only [flattenDocs, perDocSpec]
+    rw [runFrom_append, runFrom_flattenDoc_pd hs]
+    cases h0 : docRun lim d with
+    | error p => rfl
+    | ok e1 => exact ih e1 _ (pdState_run (pdState_new lim) h0)
 
-theorem docOk_events {lim : Limits} {d : Node} (h : docOk lim d = true) : 2 ≤ lim.maxEvents := by
-  unfold docOk at h
-  split at h
-  · rename_i e1 h0
-    obtain ⟨rfl, -⟩ := runFrom_ok h0
-    rw [nextAll_append] at h
-    simp only [nextAll, docEnd_events, decide_eq_true_eq] at h
-    omega
-  · cases h
+theorem pdState_perDocSpec {lim : Limits} {off : Nat} {last e : Enf} {ds : List Node} (hs : PdState lim last)
+    (h : perDocSpec lim off last ds = .ok e) : PdState lim e := by
+  rw [← perdoc_docs0 lim ds last off hs] at h
+  exact pdState_run hs h
 
-theorem perDoc_eq (lim : Limits) (ds : List Node) :
-    acc (run lim true (flattenStream ds)) =
-      (decide (1 ≤ lim.maxEvents) && (decide (2 ≤ lim.maxEvents) && ds.all (docOk lim))) := by
-  simp only [run, flattenStream, runFrom, observe_streamStart]
-  by_cases h : (Enf.new lim true).report.events + 1 > (Enf.new lim true).lim.maxEvents
-  · rw [if_pos h]
-    simp only [Enf.new] at h
-    simp [acc]; omega
-  · rw [if_neg h]
-    simp only []
-    rw [perdoc_docs lim ds _ _ rfl rfl rfl]
-    simp only [Enf.new] at h ⊢
-    simp; omega
+theorem perdoc_docs (lim : Limits) (ds : List Node) (e : Enf) (i : Nat) (hs : PdState lim e) :
+    runFrom e i (flattenDocs ds ++ [.streamEnd]) = perDocSpec lim i e ds := by
+  rw [runFrom_append, perdoc_docs0 lim ds e i hs]
+  cases h : perDocSpec lim i e ds with
+  | error p => rfl
+  | ok e1 =>
+    simp only [runFrom, observe_frame_pd (pdState_perDocSpec hs h).1 (ev := .streamEnd) rfl]
+
+/-- the per-document run of everything before a document: `StreamStart` (not counted), then the documents -/
+theorem perDoc_prefix_eq (lim : Limits) (ds : List Node) :
+    run lim true (.streamStart :: flattenDocs ds) = perDocSpec lim 1 (Enf.new lim true) ds := by
+  simp only [run, runFrom, observe_frame_pd (e := Enf.new lim true) rfl (ev := .streamStart) rfl]
+  exact perdoc_docs0 lim ds _ _ (pdState_new lim)
+
+/-- the per-document run of a whole stream, completely: `StreamStart` is not counted, then document by
+document -/
+theorem perDoc_run_eq (lim : Limits) (ds : List Node) :
+    run lim true (flattenStream ds) = perDocSpec lim 1 (Enf.new lim true) ds := by
+  simp only [run, flattenStream, runFrom, observe_frame_pd (e := Enf.new lim true) rfl (ev := .streamStart) rfl]
+  exact perdoc_docs lim ds _ _ (pdState_new lim)
+
+theorem perDocSpec_append (lim : Limits) (off : Nat) (last : Enf) (pre ds : List Node) :
+    perDocSpec lim off last (pre ++ ds) =
+      match perDocSpec lim off last pre with
+      | .error x => .error x
+      | .ok e => perDocSpec lim (off + (flattenDocs pre).length) e ds := by
+  induction pre generalizing off last with
+  | nil => rfl
+  | cons d pre ih =>
+    simp only [List.cons_append, perDocSpec, flattenDocs, List.length_append]
+    cases docRun lim d with
+    | error p => rfl
+    | ok e1 => simp only []; rw [ih, Nat.add_assoc]
+
+theorem runFrom_err_index {e : Enf} {i j : Nat} {b : Breach} {evs : List Raw} (h : runFrom e i evs = .error (j, b)) :
+    i ≤ j ∧ j < i + evs.length := by
+  obtain ⟨pre, ev, post, rfl, rfl, -, -⟩ := runFrom_err h
+  simp only [List.length_append, List.length_cons]; omega
+
+theorem perDocSpec_err_index {lim : Limits} {off : Nat} {last : Enf} {ds : List Node} {j : Nat} {b : Breach}
+    (h : perDocSpec lim off last ds = .error (j, b)) : off ≤ j := by
+  induction ds generalizing off last with
+  | nil => cases h
+  | cons d ds ih =>
+    simp only [perDocSpec] at h
+    split at h
+    · injection h with h; injection h with h1 h2; omega
+    · have := ih h; omega
+
+/-- the usage report of an accepted run (`finalize`), `none` for a rejected one -/
+def okReport : Except (Nat × Breach) Enf → Option Report
+  | .ok e => some e.finalize.1
+  | .error _ => none
+
+@[simp] theorem okReport_shiftErr (k : Nat) (r : Except (Nat × Breach) Enf) : okReport (shiftErr k r) = okReport r := by
+  cases r with
+  | ok e => rfl
+  | error p => rfl
+
+theorem acc_perDocSpec (lim : Limits) (ds : List Node) (off : Nat) (last : Enf) :
+    acc (perDocSpec lim off last ds) = ds.all (fun d => acc (docRun lim d)) := by
+  induction ds generalizing off last with
+  | nil => rfl
+  | cons d ds ih =>
+    simp only [perDocSpec, List.all_cons]
+    cases h0 : docRun lim d with
+    | error p => rfl
+    | ok e1 => simp only [acc, Bool.true_and]; exact ih _ _
+
+/-- a one-document stream is the document on its own (index moved past the uncounted `StreamStart`) -/
+theorem perDoc_single (lim : Limits) (d : Node) :
+    run lim true (flattenStream [d]) = shiftErr 1 (docRun lim d) := by
+  rw [perDoc_run_eq]
+  simp only [perDocSpec]
+  cases docRun lim d with
+  | error p => rfl
+  | ok e1 => rfl
 
 /-! ## a (necessarily astronomically large) counterexample to "never unbalanced" without the size bound
 
@@ -1103,7 +1273,8 @@ theorem nDocuments_le_length (xs : List Raw) : nDocuments xs ≤ xs.length := by
   simp only [nDocuments]; exact List.length_filter_le _ _
 
 theorem observe_seqEnd_depth0 {E e2 : Enf} (hd : E.depth = 0) (h : E.observe .seqEnd = .ok e2) : False := by
-  simp only [Enf.observe] at h
+  rw [observe_plain E rfl rfl] at h
+  simp only [Enf.observeCounted] at h
   split at h
   · cases h
   · simp [hd] at h
@@ -1153,6 +1324,7 @@ theorem counter_unbalanced (M : Nat) (hM : M = USIZE_MAX) :
     unfold run at h
     obtain ⟨pre, ev, post, heq, -, -, herr⟩ := runFrom_err h
     have hb := observe_err herr
+    rw [pro_of_not_pd ev (by simp [Enf.new])] at hb
     have hlen : pre.length + 1 + post.length = 2 * M + 7 := by
       have := congrArg List.length heq
       rw [counter_stream] at this
@@ -1188,7 +1360,13 @@ theorem next_maxDepth (e : Enf) (ev : Raw) :
     (next e ev).report.maxDepth =
       if e.perDocument && isDocStart ev then 0
       else if isStart ev then max e.report.maxDepth (satAdd e.depth 1) else e.report.maxDepth := by
-  unfold next; split <;> rfl
+  unfold next; split
+  · rfl
+  · split
+    · rename_i h
+      simp only [Bool.and_eq_true] at h
+      cases ev <;> simp_all [isStreamFrame, isStart]
+    · rfl
 
 /-- invariant of accepted runs -/
 def DepthInv (e : Enf) : Prop :=
@@ -1229,6 +1407,7 @@ theorem unbalanced_wfAll_false' {e : Enf} {i j : Nat} {evs : List Raw} (hlim : e
   obtain ⟨pre, ev, post, rfl, -, hok, herr⟩ := runFrom_err h
   have hb := observe_err herr
   simp only [BreachSpec] at hb
+  rw [pro_of_isEnd hb.1] at hb
   have hdl := (depthInv_run hlim hI hok).2.1
   have hwf : wf (cstepAll e.perDocument e.containers pre) ev = false := by
     rw [← nextAll_containers]
